@@ -35,7 +35,8 @@ EXHAUSTIVE = True
 def bounds(tier):
     return {'script_shapes': '2 x 2 x 3 x 2 x 2 x 2 x 2 x 2 x 2 = 768 (sources 1-2, static library, 0-2 '
                              'extra deps on link/generate, 0-1 on compile, 1-2 generator outputs, alias, '
-                             'header file via includes=, pre-existing library, versioned shared library)',
+                             'header file via includes=, pre-existing library, versioned shared library, '
+                             'precompiled header; x2)',
             'default_histories': '%d operations over 3 outputs x {link, default, install, test}' %
                                  (3 if tier == 'quick' else 4)}
 
@@ -45,11 +46,11 @@ def obligations(tier, kf):
     obs = []
     for nf in (1, 2):
         for hl in (0, 1):
-            for hx in range(8):
+            for hx in range(16):
                 obs.append(Ob('e_edges', {'NFILES': nf, 'HASLIB': hl, 'HX': hx}, 1500,
                               desc='script shapes with %d sources, library=%d, includes/prebuilt/'
                                    'versioned=%d' % (nf, hl, hx)))
-    obs.append(Ob('e_edges', {'NFILES': 1, 'HASLIB': 0, 'HX': 7}, 300).twin())
+    obs.append(Ob('e_edges', {'NFILES': 1, 'HASLIB': 0, 'HX': 15}, 300).twin())
     obs.append(Ob('e_edges', {'NFILES': 1, 'HASLIB': 0, 'HX': 0}, 900).mutant('make_link_drops_extra_deps'))
     obs.append(Ob('e_edges', {'NFILES': 1, 'HASLIB': 1, 'HX': 0}, 900).mutant('ninja_link_drops_libs'))
     obs.append(Ob('e_edges', {'NFILES': 1, 'HASLIB': 0, 'HX': 0}, 900).mutant('multitarget_no_stamp_deps'))
